@@ -19,6 +19,26 @@ package dhcpd
 // production call sites, onNotify and resetLeases.  The servers are replaced
 // neither by set_config nor by reset, so the srv4/srv6 fields are read-only.
 // No sockets: the packet handlers get a net.PacketConn that records the reply.
+//
+// What fails the check is what C05 states: a race report (read by props/C05.py
+// from the detector's log), a panic, a stall, a reply or document that is not
+// well formed.  Whether the static-lease API did what it answered (an accepted
+// add is in the table, an accepted remove is gone) is a functional outcome of the
+// lease table, not a statement of C05: it is recorded under
+// "functional_observations" with the table at that moment and judged by nobody.
+// Such an outcome does not need a schedule: on the DHCPv6 server
+//
+//	SOLICIT from c (gets ::f0); add_static_lease {m, ::10};
+//	add_static_lease {m, ::f0}; update_static_lease {m, ::f0};
+//	remove_static_lease {m, ::f0}
+//
+// run by ONE goroutine leaves {m, ::f0} in the table after the accepted remove:
+// (*v6Server).rmDynamicLease skips the lease it swaps into the index it has just
+// emptied, so the second add is accepted although m has a reservation, the
+// update turns the two into twins and the remove takes one away
+// (notes/fix-drafts/20-dhcpd-v6-rmdynamiclease-skip.*).  Control experiment:
+// VERIF_C05_SEQ=60000 VERIF_SEED=4 runs the same workers on one goroutine and
+// records that observation too.
 
 import (
 	"bytes"
@@ -45,17 +65,22 @@ import (
 )
 
 type c05dReport struct {
-	Seed      uint64         `json:"seed"`
-	Millis    int            `json:"millis"`
-	Queries   int64          `json:"queries"`
-	AdminOps  int64          `json:"admin_ops"`
-	V4Packets int64          `json:"v4_packets"`
-	V6Packets int64          `json:"v6_packets"`
-	Mutations int64          `json:"admin_mutations"`
-	Reads     int64          `json:"admin_reads"`
-	LeaseSec  uint32         `json:"lease_seconds"`
-	Panics    []string       `json:"panics"`
-	Malformed []string       `json:"malformed"`
+	Seed      uint64   `json:"seed"`
+	Millis    int      `json:"millis"`
+	Queries   int64    `json:"queries"`
+	AdminOps  int64    `json:"admin_ops"`
+	V4Packets int64    `json:"v4_packets"`
+	V6Packets int64    `json:"v6_packets"`
+	Mutations int64    `json:"admin_mutations"`
+	Reads     int64    `json:"admin_reads"`
+	LeaseSec  uint32   `json:"lease_seconds"`
+	Panics    []string `json:"panics"`
+	Malformed []string `json:"malformed"`
+	// Observed holds the first functional outcomes of the static-lease API that
+	// differ from its answer, ObservedN their number; see the comment above.
+	Observed  []string       `json:"functional_observations"`
+	ObservedN int            `json:"functional_observations_total"`
+	SeqSteps  int            `json:"sequential_control_steps,omitempty"`
 	Stalled   string         `json:"stalled"`
 	Replies   map[string]int `json:"replies"`
 	Statuses  map[string]int `json:"http_statuses"`
@@ -212,6 +237,14 @@ func TestVerifC05Stress(t *testing.T) {
 			*dst = append(*dst, fmt.Sprintf(format, args...))
 		}
 	}
+	observe := func(format string, args ...any) {
+		repMu.Lock()
+		defer repMu.Unlock()
+		rep.ObservedN++
+		if len(rep.Observed) < 20 {
+			rep.Observed = append(rep.Observed, fmt.Sprintf(format, args...))
+		}
+	}
 	count := func(m map[string]int, key string) {
 		repMu.Lock()
 		defer repMu.Unlock()
@@ -313,6 +346,28 @@ func TestVerifC05Stress(t *testing.T) {
 	deadline := time.Now().Add(time.Duration(millis) * time.Millisecond)
 	var v4pkts, v6pkts, mutations, reads atomic.Int64
 	var wg sync.WaitGroup
+	// start runs a worker: step, again and again, on a goroutine of its own until
+	// the deadline.  With VERIF_C05_SEQ=<steps> (control experiment, not used by
+	// the check) nothing runs concurrently: one goroutine performs that many
+	// steps, each of a worker drawn from the seed, so the whole run is a function
+	// of the seed and an outcome seen there owes nothing to a schedule.
+	seqSteps, _ := strconv.Atoi(os.Getenv("VERIF_C05_SEQ"))
+	rep.SeqSteps = seqSteps
+	var seqWorkers []func()
+	start := func(step func()) {
+		if seqSteps > 0 {
+			seqWorkers = append(seqWorkers, step)
+
+			return
+		}
+		wg.Add(1)
+		go func() {
+			defer wg.Done()
+			for time.Now().Before(deadline) {
+				step()
+			}
+		}()
+	}
 
 	// ---- (a) DHCPv4 packets: every worker owns its clients, so the packets of
 	// one client never overlap, while those of different clients do.
@@ -432,18 +487,12 @@ func TestVerifC05Stress(t *testing.T) {
 		}
 	}
 	for g := 0; g < c05dV4Workers; g++ {
-		wg.Add(1)
-		go func(g int) {
-			defer wg.Done()
-			r := &c05dRand{s: seed*1000 + uint64(g)}
-			clients := make([]*c05dClient4, c05dV4Clients)
-			for i := range clients {
-				clients[i] = &c05dClient4{mac: c05dMAC(4, g, i)}
-			}
-			for time.Now().Before(deadline) {
-				step4(r, clients[r.intn(len(clients))])
-			}
-		}(g)
+		r := &c05dRand{s: seed*1000 + uint64(g)}
+		clients := make([]*c05dClient4, c05dV4Clients)
+		for i := range clients {
+			clients[i] = &c05dClient4{mac: c05dMAC(4, g, i)}
+		}
+		start(func() { step4(r, clients[r.intn(len(clients))]) })
 	}
 
 	// ---- DHCPv6 packets
@@ -542,18 +591,12 @@ func TestVerifC05Stress(t *testing.T) {
 		}
 	}
 	for g := 0; g < c05dV6Workers; g++ {
-		wg.Add(1)
-		go func(g int) {
-			defer wg.Done()
-			r := &c05dRand{s: seed*3333 + uint64(g)}
-			clients := make([]*c05dClient6, c05dV6Clients)
-			for i := range clients {
-				clients[i] = &c05dClient6{mac: c05dMAC(6, g, i)}
-			}
-			for time.Now().Before(deadline) {
-				step6(r, clients[r.intn(len(clients))])
-			}
-		}(g)
+		r := &c05dRand{s: seed*3333 + uint64(g)}
+		clients := make([]*c05dClient6, c05dV6Clients)
+		for i := range clients {
+			clients[i] = &c05dClient6{mac: c05dMAC(6, g, i)}
+		}
+		start(func() { step6(r, clients[r.intn(len(clients))]) })
 	}
 
 	// ---- (b) the static-lease API and reset_leases, one at a time (ctlMu).
@@ -639,6 +682,24 @@ func TestVerifC05Stress(t *testing.T) {
 
 		return known[keys[r.intn(len(keys))]], true
 	}
+	// table renders the leases of l's server for an observation.
+	table := func(l staticLease) string {
+		b := &strings.Builder{}
+		for i, x := range srvOf(l).GetLeases(LeasesAll) {
+			if i == 48 {
+				b.WriteString(" ...")
+
+				break
+			}
+			kind := "dynamic"
+			if x.IsStatic {
+				kind = "static"
+			}
+			fmt.Fprintf(b, " {%s %s %q %s}", x.HWAddr, x.IP, x.Hostname, kind)
+		}
+
+		return b.String()
+	}
 	toLease := func(l staticLease) *dhcpsvc.Lease {
 		return &dhcpsvc.Lease{HWAddr: bytes.Clone(l.mac), IP: l.ip, Hostname: l.host, IsStatic: true}
 	}
@@ -653,12 +714,12 @@ func TestVerifC05Stress(t *testing.T) {
 				return
 			}
 		}
-		note(&rep.Malformed, "%s %s accepted, but the static lease is not in the table", op, body(l))
+		observe("%s %s accepted, but the static lease is not in the table; leases:%s", op, body(l), table(l))
 	}
 	removed := func(op string, l staticLease) {
 		delete(known, key(l))
 		if hasStatic(l) {
-			note(&rep.Malformed, "%s %s accepted, but the static lease is still in the table", op, body(l))
+			observe("%s %s accepted, but the static lease is still in the table; leases:%s", op, body(l), table(l))
 		}
 	}
 	// reset_leases is rare (every 500th operation of a worker): the DHCPv6
@@ -726,19 +787,17 @@ func TestVerifC05Stress(t *testing.T) {
 		}
 	}
 	for g := 0; g < 2; g++ {
-		wg.Add(1)
-		go func(g int) {
-			defer wg.Done()
-			r := &c05dRand{s: seed*7777 + uint64(g)}
-			for n := 0; time.Now().Before(deadline); n++ {
-				guard(func() string { return "admin" }, func() {
-					ctlMu.Lock()
-					defer ctlMu.Unlock()
-					mutate(r, n)
-				})
-				mutations.Add(1)
-			}
-		}(g)
+		r := &c05dRand{s: seed*7777 + uint64(g)}
+		n := 0
+		start(func() {
+			guard(func() string { return "admin" }, func() {
+				ctlMu.Lock()
+				defer ctlMu.Unlock()
+				mutate(r, n)
+			})
+			mutations.Add(1)
+			n++
+		})
 	}
 
 	// ---- (c) readers and the store path, without ctlMu
@@ -789,16 +848,19 @@ func TestVerifC05Stress(t *testing.T) {
 		},
 	}
 	for g := 0; g < 2; g++ {
-		wg.Add(1)
-		go func(g int) {
-			defer wg.Done()
-			r := &c05dRand{s: seed*99991 + uint64(g)}
-			for time.Now().Before(deadline) {
-				op := reading[r.intn(len(reading))]
-				guard(func() string { return "reader" }, func() { op(r) })
-				reads.Add(1)
-			}
-		}(g)
+		r := &c05dRand{s: seed*99991 + uint64(g)}
+		start(func() {
+			op := reading[r.intn(len(reading))]
+			guard(func() string { return "reader" }, func() { op(r) })
+			reads.Add(1)
+		})
+	}
+
+	if seqSteps > 0 {
+		sched := &c05dRand{s: seed*424243 + 7}
+		for i := 0; i < seqSteps; i++ {
+			seqWorkers[sched.intn(len(seqWorkers))]()
+		}
 	}
 
 	// watchdog: every worker must finish within 15 s of the deadline
@@ -828,8 +890,8 @@ func TestVerifC05Stress(t *testing.T) {
 	rep.Queries = rep.V4Packets + rep.V6Packets
 	rep.Mutations, rep.Reads = mutations.Load(), reads.Load()
 	rep.AdminOps = rep.Mutations + rep.Reads
-	nPanics, nMalformed := len(rep.Panics), len(rep.Malformed)
+	nPanics, nMalformed, nObserved := len(rep.Panics), len(rep.Malformed), rep.ObservedN
 	repMu.Unlock()
-	t.Logf("c05 dhcpd stress: %d v4 + %d v6 packets, %d admin mutations, %d reads, %d panics, %d malformed",
-		rep.V4Packets, rep.V6Packets, rep.Mutations, rep.Reads, nPanics, nMalformed)
+	t.Logf("c05 dhcpd stress: %d v4 + %d v6 packets, %d admin mutations, %d reads, %d panics, %d malformed, %d functional observations (not judged)",
+		rep.V4Packets, rep.V6Packets, rep.Mutations, rep.Reads, nPanics, nMalformed, nObserved)
 }
